@@ -60,6 +60,10 @@ DottedDrops == {{D("logger.conf", "cfg-of-logger")},
 \* "liar": a pre-installed plugin that registers under another name and index than its file's - it stays where its file name puts it
 Liar == <<E("10-first", "exec", "liar"), E("20-second", "exec", "healthy"), E("30-third", "exec", "healthy")>>
 
+\* "hang": answers its first event never - dropped after the request timeout, and killed
+Hangs == {<<E("10-aa", "exec", IF k = 1 THEN "hang" ELSE "healthy"), E("20-bb", "exec", IF k = 2 THEN "hang" ELSE "healthy"),
+            E("30-cc", "exec", "healthy")>> : k \in 1..2}
+
 \* execute bits; a plugin failing its synchronization at each position; stale NRI_PLUGIN_* variables in the runtime's own environment
 ExecBits == <<E("10-owner", "execu", "healthy"), E("20-group", "execg", "healthy"), E("30-other", "execo", "healthy"),
               E("40-none", "noexec", ""), E("50-all", "exec", "healthy")>>
@@ -71,7 +75,7 @@ Scenarios ==
   CASE Mode = "dirs" -> {[entries |-> d, dropins |-> {}, stale |-> FALSE, syncfails |-> FALSE] : d \in Dirs2 \cup Dirs3 \cup Small}
     [] Mode = "dropins" -> {[entries |-> <<E("20-bb", "exec", "healthy"), E("10-aa", "exec", "healthy")>>, dropins |-> da \cup db,
                              stale |-> FALSE, syncfails |-> FALSE] : da \in DropSets("10-aa"), db \in DropSets("20-bb")}
-    [] Mode = "more" -> {[entries |-> d, dropins |-> {}, stale |-> FALSE, syncfails |-> FALSE] : d \in {ExecBits, Liar} \cup FailSync}
+    [] Mode = "more" -> {[entries |-> d, dropins |-> {}, stale |-> FALSE, syncfails |-> FALSE] : d \in {ExecBits, Liar} \cup FailSync \cup Hangs}
                         \* the runtime's own synchronization callback fails: Start fails and everything launched is killed
                         \cup {[entries |-> <<E("10-aa", "exec", "healthy"), E("20-bb", "exec", "healthy"), E("30-cc", "exec", "noregister")>>,
                                dropins |-> {}, stale |-> FALSE, syncfails |-> TRUE]}
